@@ -37,6 +37,10 @@ const (
 	kPrepared // proposal + the three foreign prepares of a height, delivered back to back
 	kCommit
 	kRestart
+	// kStartInst: Controller.StartNewInstance called directly - what a runner's decide() does once
+	// its pre-consensus quorum arrives (proposer, aggregator, contribution duties), possibly long
+	// after StartNewDuty's own guard was passed
+	kStartInst
 )
 
 type evDef struct {
@@ -66,11 +70,11 @@ func sliceOf(events []evDef, which string) []int {
 		case "full":
 			out = append(out, i)
 		case "certs":
-			if e.kind == kStart || e.kind == kCert || e.kind == kRestart {
+			if e.kind == kStart || e.kind == kCert || e.kind == kRestart || e.kind == kStartInst {
 				out = append(out, i)
 			}
 		case "local":
-			if e.kind == kRestart || (e.h <= 2 && (e.kind == kStart || e.kind == kPrepared || e.kind == kCommit || (e.kind == kCert && e.round == 1 && e.signers == 4))) {
+			if e.kind == kRestart || (e.h <= 2 && (e.kind == kStart || e.kind == kStartInst || e.kind == kPrepared || e.kind == kCommit || (e.kind == kCert && e.round == 1 && e.signers == 4))) {
 				out = append(out, i)
 			}
 		}
@@ -115,6 +119,9 @@ func buildEvents(rounds []int) []evDef {
 		if rd > 1 {
 			certs(rd)
 		}
+	}
+	for h := 1; h <= 3; h++ {
+		out = append(out, evDef{name: fmt.Sprintf("startInstance(%d)", h), kind: kStartInst, h: h})
 	}
 	return out
 }
@@ -287,6 +294,8 @@ func (s *sys) Apply(st runh.Step) (string, []runh.Viol, int) {
 		switch e.kind {
 		case kStart:
 			startErr = s.w.V.StartDuty(s.w.Log, runh.Duty(role, phase0.Slot(e.h)))
+		case kStartInst:
+			startErr = ctrl.StartNewInstance(s.w.Log, specqbft.Height(e.h), runh.ConsensusValue(role, phase0.Slot(e.h), runh.Valid))
 		case kRestart:
 			// handled below
 		default:
@@ -355,6 +364,20 @@ func (s *sys) Apply(st runh.Step) (string, []runh.Viol, int) {
 			}
 			if startErr == nil {
 				s.started = maxi(s.started, e.h)
+			}
+		case kStartInst:
+			limit := maxi(s.started, s.learned)
+			switch {
+			case e.h <= limit && startErr == nil:
+				bad("consensus instance started for a height at or below the highest started/decided height", fmt.Sprintf("%s accepted although started=%d learned-decided=%d", e.name, s.started, s.learned), "nil error", "refused")
+				out = "startInstance:accepted-below-limit"
+			case e.h <= limit:
+				out = "startInstance:refused"
+			case startErr == nil:
+				out = "startInstance:ok"
+				s.started = maxi(s.started, e.h)
+			default:
+				out = "startInstance:refused-above-limit"
 			}
 		case kCert:
 			decidedNew = e.h
@@ -440,6 +463,8 @@ func certClass(e *evDef) string {
 		return "by a local decision"
 	case kStart:
 		return "by startDuty"
+	case kStartInst:
+		return "by startInstance"
 	case kPrepared:
 		return "by proposal+prepares"
 	}
@@ -469,6 +494,7 @@ func (c *cfgT) config() *runh.Config {
 func main() {
 	prof := flag.String("cpuprofile", "", "write a CPU profile (diagnostics)")
 	r := ev.Start("C15", "model_checking")
+	r.DefaultBudget(8*time.Minute, 60*time.Minute) // three fault variants per DB write: ~2 min quick on an idle box
 	if *prof != "" {
 		f, _ := os.Create(*prof)
 		_ = pprof.StartCPUProfile(f)
